@@ -33,7 +33,7 @@ class Gen:
     def __init__(self, rng, *, engines, weights, max_ops=10, nleaves=(2, 3), flags_p=0.0, udf_p=0.0,
                  total_sort_p=0.5, pref_engines=None, leaf_payloads=("simrows", "seq", "map"),
                  bounds=("exact",), special_leaf_p=0.0, named_mat=True, max_rows=5, itonly_p=0.0,
-                 allow_pending_binary=0.05, hidden_p=0.0, zero_col_p=0.08):
+                 allow_pending_binary=0.05, hidden_p=0.0, zero_col_p=0.08, adjacent_p=0.0, ill_flags_p=0.5):
         self.rng = rng
         self.engines = engines
         self.weights = weights
@@ -52,6 +52,10 @@ class Gen:
         self.allow_pending_binary = allow_pending_binary
         self.hidden_p = hidden_p
         self.zero_col_p = zero_col_p
+        self.adjacent_p = adjacent_p
+        self.ill_flags_p = ill_flags_p
+        self.force_last = False
+        self.last_kind = None
         self.pool: list[Shadow] = []
         self.ops: list[dict] = []
         self.nmat = 0
@@ -119,6 +123,8 @@ class Gen:
         cand = [i for i in range(n) if pred is None or pred(self.pool[i])]
         if not cand:
             return None
+        if self.force_last:
+            return cand[-1]
         if r.random() < 0.55:
             return cand[-1]
         return r.choice(cand)
@@ -197,8 +203,16 @@ class Gen:
     def step(self):
         r = self.rng
         kinds = list(self.weights)
-        k = r.choices(kinds, weights=[self.weights[x] for x in kinds])[0]
+        if self.adjacent_p and self.last_kind in ("calc", "proj", "sel", "dedup", "sort", "slice") and r.random() < self.adjacent_p:
+            k = self.last_kind if r.random() < 0.7 else r.choice(["proj", "slice", "sort", "sel"])
+            self.force_last = True
+        else:
+            k = r.choices(kinds, weights=[self.weights[x] for x in kinds])[0]
+        n = len(self.ops)
         getattr(self, "g_" + k)()
+        self.force_last = False
+        if len(self.ops) > n:
+            self.last_kind = self.ops[-1]["k"]
 
     def g_leaf(self):
         # bias: reuse the columns of an existing entry so that chains are possible
@@ -368,6 +382,143 @@ class Gen:
     def g_abandon(self):
         if self.ncursors:
             self.ops.append({"k": "abandon", "c": self.rng.randrange(3)})
+
+    def g_diag(self):
+        i = self.pick()
+        if i is None:
+            return
+        self.ops.append({"k": "diag", "t": i, "ex": self.rng.choice(["none", "truth", "truth", "real"])})
+
+    def g_attach(self):
+        i = self.pick()
+        if i is None:
+            return
+        self.ops.append({"k": "attach", "t": i, "node": self.rng.randrange(6)})
+
+    def g_rawtree(self):
+        i = self.pick(lambda s: s.eng == "sql")
+        if i is None:
+            return
+        self.ops.append({"k": "rawtree", "t": i})
+
+    def g_rebuild(self):
+        i = self.pick()
+        if i is not None:
+            self.ops.append({"k": "rebuild", "t": i})
+
+    def g_twice(self):
+        i = self.pick()
+        if i is not None:
+            self.ops.append({"k": "twice", "t": i})
+
+    def g_iterate(self):
+        i = self.pick(lambda s: s.eng != "sql")
+        if i is None:
+            return
+        op = {"k": "iterate", "t": i, "times": self.rng.choice([1, 2, 2, 3])}
+        if self.rng.random() < 0.25:
+            op["partial"] = self.rng.choice([0, 1, 2])
+        self.ops.append(op)
+
+    def g_ill(self):
+        """Derive one ill-typing edit from a call the generator believes acceptable."""
+        r = self.rng
+        kind = r.choice(["calc", "calc", "proj", "sel", "sort", "slice", "chain", "join", "join"])
+        n_ops = len(self.ops)
+        n_pool = len(self.pool)
+        saved_fp = self.flags_p
+        self.flags_p = self.ill_flags_p
+        try:
+            getattr(self, "g_" + kind)()
+        finally:
+            self.flags_p = saved_fp
+        if len(self.ops) == n_ops or self.ops[-1]["k"] != kind:
+            return
+        base = self.ops.pop()
+        self.pool.pop()
+        tgt = self.pool[base.get("t", base.get("l")) % len(self.pool)]
+        missing = [c for c in ["a", "b", "c", "d", "e", "x", "y"] if c not in tgt.cols]
+        if kind == "join":
+            missing = [c for c in missing if c not in self.pool[base["r"] % len(self.pool)].cols]
+        edit = None
+        if kind == "calc":
+            ch = r.choice(["missing", "dup", "unsupported"])
+            if ch == "missing" and missing:
+                base["e"] = ["add", base["e"], ["ref", r.choice(missing)]]
+                edit = "missing"
+            elif ch == "dup" and tgt.cols:
+                base["tag"] = r.choice(sorted(tgt.cols))
+                edit = "dup"
+            elif tgt.eng == "sql":
+                base["e"] = ["udf", "itonly", base["e"]]
+                if base.get("pe") not in (None, "sql"):
+                    base.pop("pe")
+                edit = "unsupported"
+        elif kind == "proj" and missing:
+            base["cols"] = sorted(set(base["cols"]) | {r.choice(missing)})
+            edit = "missing"
+        elif kind == "sel":
+            if r.random() < 0.8 and missing:
+                extra = ["cmp", "lt", ["ref", r.choice(missing)], ["lit", 1]]
+                base["p"] = ["and", base["p"], extra] if r.random() < 0.6 else extra
+                edit = "missing"
+            elif tgt.eng == "sql" and tgt.cols:
+                base["p"] = ["cmp", "gt", ["udf", "itonly", ["ref", sorted(tgt.cols)[0]]], ["lit", 0]]
+                if base.get("pe") not in (None, "sql"):
+                    base.pop("pe")
+                edit = "unsupported"
+        elif kind == "sort" and missing:
+            base["terms"] = base["terms"] + [[["ref", r.choice(missing)], True]]
+            r.shuffle(base["terms"])
+            edit = "missing"
+        elif kind == "slice":
+            ch = r.choice(["neg", "rev", "step", "index"])
+            if ch == "neg":
+                base["start"] = -r.randint(1, 3)
+            elif ch == "rev":
+                base["start"], base["stop"] = 3, r.randint(0, 2)
+            elif ch == "step":
+                base["step"] = r.choice([2, 3, -1, 0])
+            else:
+                base["index"] = r.randint(0, 3)
+            edit = ch
+        elif kind == "chain":
+            other = self.pool[base["r"] % len(self.pool)] if self.pool else None
+            if r.random() < 0.6:
+                cols = set(tgt.cols)
+                if missing and r.random() < 0.5:
+                    cols.add(r.choice(missing))
+                elif cols:
+                    cols.discard(sorted(cols)[0])
+                else:
+                    cols.add("a")
+                self.leaf(eng=tgt.eng, cols=[c for c in cols if c in KEY_TAGS])
+                if self.pool[-1].cols == tgt.cols:
+                    return
+                edit = "cols"
+            else:
+                engs = [e for e in self.engines if e != tgt.eng]
+                if not engs:
+                    return
+                self.leaf(eng=r.choice(engs), cols=[c for c in tgt.cols if c in KEY_TAGS])
+                edit = "engine"
+            if r.random() < 0.5:
+                base["r"] = len(self.pool) - 1
+            else:
+                base["r"] = base["l"]
+                base["l"] = len(self.pool) - 1
+        elif kind == "join":
+            rr = self.pool[base["r"] % len(self.pool)]
+            if r.random() < 0.6 and missing:
+                base["p"] = ["cmp", "eq", ["ref", r.choice(missing)], ["lit", 0]]
+                edit = "missing"
+            elif tgt.eng != rr.eng:
+                base["bt"] = False
+                base["tr"] = False
+                edit = "engine"
+        if edit is None:
+            return
+        self.ops.append({"k": "ill", "op": base, "edit": edit})
 
     # ------------------------------------------------------------------ driver
     def build(self):
